@@ -6,11 +6,12 @@ import coqlit as L
 
 ID = "C09"
 COQ_PROPERTY_FILE = "Properties/C09.v"
-COQ_DEPS = ["Common/ListX.v", "Common/ObsHash.v", "Generated/Tables.v", "Model/LegacyNbhd.v", "Proofs/LegacyNbhdProofs.v"]
-COQ_IMPORTS = "From Mesa Require Import Model.LegacyNbhd."
-COQ_CASE_TYPE = "case"
-COQ_RUN = "run_case"
-TABLE_CONSTRUCTS = ["grid_cache_key"]
+COQ_DEPS = ["Common/ListX.v", "Common/ObsHash.v", "Common/Reach.v", "Generated/Tables.v", "Model/LegacyNbhd.v",
+            "Proofs/LegacyNbhdProofs.v", "Model/LegacyHexNet.v", "Proofs/LegacyHexNetProofs.v"]
+COQ_IMPORTS = "From Mesa Require Import Model.LegacyNbhd Model.LegacyHexNet."
+COQ_CASE_TYPE = "case9"
+COQ_RUN = "run_case9"
+TABLE_CONSTRUCTS = ["grid_cache_key", "lhex_even_col", "lhex_odd_col", "hex_cache_key"]
 RULE = ("histories = one legacy grid (class, w, h, torus, random placement of agents) + a sequence of "
         "get/iter_neighborhood, get/iter_neighbors, get_cell_list_contents calls on that one instance; the first "
         "cases enumerate all (w,h)<=3x3 x torus x pos x r<=4 x moore x include_center exhaustively in shuffled order, "
@@ -25,7 +26,8 @@ TRUSTED_BASE = [
     "Uint63 primitive hash only in scratch Cases files, never under a theorem",
 ]
 ASSUMPTIONS = [
-    "positions, radii are Python ints; radius >= 1; hex and network legacy grids are checked by the oracle only (not yet in the Gallina model)",
+    "positions, radii are Python ints; radius >= 1; NetworkGrid graphs are simple undirected graphs with int node ids",
+    "hex tori with odd width (no wrapped hexagonal tiling exists) are run through the model correspondence only, not the oracle",
     "order of the returned cells is not part of the statement: compared as sorted sets plus a duplicate flag",
 ]
 E_OOB = 1
@@ -65,7 +67,7 @@ def _mk_case(rng, cls, w, h, torus, qs, extra_ops=()):
 
 
 def gen_cases(rng, tier):
-    cases = []
+    cases = _gen_hex(rng, tier) + _gen_net(rng, tier)
     # exhaustive small grids
     small = 3 if tier == "quick" else 4
     rsmall = 4 if tier == "quick" else 5
@@ -108,6 +110,54 @@ def gen_cases(rng, tier):
             # out-of-bounds position: rejected, never cached
             extra.append(["nbhd", w + rng.randint(0, 2), rng.randrange(h), True, False, 1, "get"])
         cases.append(_mk_case(rng, rng.choice(["SingleGrid", "MultiGrid"]), w, h, torus, qs, extra))
+    return cases
+
+
+def _hex_case(rng, cls, w, h, torus, qs):
+    base = _mk_case(rng, "SingleGrid" if cls == "HexSingleGrid" else "MultiGrid", w, h, torus, [])
+    ops = [[rng.choice(["nbhd", "nbrs"]), x, y, ic, r, rng.choice(["get", "iter"])] for (x, y, ic, r) in qs]
+    return {"kind": "hex", "cls": cls, "w": w, "h": h, "torus": torus, "agents": base["agents"], "ops": ops}
+
+
+def _gen_hex(rng, tier):
+    cases = []
+    lim = 4 if tier == "quick" else 5
+    for w in range(1, lim + 1):
+        for h in range(1, lim + 1):
+            for torus in (False, True):
+                qs = [(x, y, ic, r) for x in range(w) for y in range(h) for ic in (True, False) for r in range(1, 5)]
+                rng.shuffle(qs)
+                for s0 in range(0, len(qs), 50):
+                    cases.append(_hex_case(rng, rng.choice(["HexSingleGrid", "HexMultiGrid"]), w, h, torus, qs[s0:s0 + 50]))
+    for _ in range(60 if tier == "quick" else 1500):
+        w, h = rng.randint(1, 8), rng.randint(1, 8)
+        torus = rng.random() < 0.5
+        qs = []
+        for _ in range(rng.randint(2, 10)):
+            if qs and rng.random() < 0.5:
+                x, y, ic, r = rng.choice(qs)
+                if rng.random() < 0.5:
+                    ic = not ic
+                else:
+                    r = max(1, r + rng.choice([-1, 1]))
+                qs.append((x, y, ic, r))
+            else:
+                qs.append((rng.randrange(w), rng.randrange(h), rng.random() < 0.5, rng.randint(1, max(w, h) + 1)))
+        cases.append(_hex_case(rng, rng.choice(["HexSingleGrid", "HexMultiGrid"]), w, h, torus, qs))
+    return cases
+
+
+def _gen_net(rng, tier):
+    cases = []
+    for _ in range(120 if tier == "quick" else 3000):
+        n = rng.randint(1, 8)
+        p = rng.choice([0.0, 0.15, 0.3, 0.5, 0.8, 1.0])
+        edges = [[i, j] for i in range(n) for j in range(i + 1, n) if rng.random() < p]
+        agents = [[k + 1, rng.randrange(n)] for k in range(rng.randint(0, n + 2))]
+        ops = []
+        for _ in range(rng.randint(2, 12)):
+            ops.append([rng.choice(["nbhd", "nbrs"]), rng.randrange(n), rng.random() < 0.5, rng.randint(1, n + 1)])
+        cases.append({"kind": "net", "n": n, "edges": edges, "agents": agents, "ops": ops})
     return cases
 
 
@@ -157,7 +207,160 @@ def _expected_cells(w, h, torus, x, y, moore, ic, r):
     return out
 
 
+def _cube(p):
+    x, y = p
+    return x, y - (x + (x % 2)) // 2
+
+
+def _hexdist(a, b):
+    (q1, r1), (q2, r2) = _cube(a), _cube(b)
+    dq, dr = q1 - q2, r1 - r2
+    return max(abs(dq), abs(dr), abs(dq + dr))
+
+
+def _hex_expected(w, h, torus, pos, ic, r):
+    """cells within r steps of touching hexagons (touching decided geometrically in cube coordinates)"""
+    def adj(p):
+        out = []
+        for dx in (-1, 0, 1):
+            for dy in (-1, 0, 1):
+                c = (p[0] + dx, p[1] + dy)
+                if _hexdist(p, c) == 1:
+                    if torus:
+                        out.append((c[0] % w, c[1] % h))
+                    elif 0 <= c[0] < w and 0 <= c[1] < h:
+                        out.append(c)
+        return out
+    seen = set()
+    frontier = [pos]
+    for _ in range(r):
+        nxt = []
+        for p in frontier:
+            for c in adj(p):
+                if c not in seen:
+                    seen.add(c)
+                    nxt.append(c)
+        frontier = nxt
+    seen.discard(pos)
+    if ic:
+        seen.add(pos)
+    return seen
+
+
+def _run_hex(case):
+    import warnings
+
+    import mesa
+    from mesa.space import HexMultiGrid, HexSingleGrid
+
+    model = mesa.Model(seed=1)
+    cls = {"HexSingleGrid": HexSingleGrid, "HexMultiGrid": HexMultiGrid}[case["cls"]]
+    w, h, torus = case["w"], case["h"], case["torus"]
+    with warnings.catch_warnings():
+        warnings.simplefilter("ignore")
+        g = cls(w, h, torus)
+    where = {}
+    for aid, x, y in case["agents"]:
+        a = mesa.Agent(model)
+        a._verif_id = aid
+        g.place_agent(a, (x, y))
+        where.setdefault((x, y), []).append(aid)
+    obs, failures = [], []
+    in_quantifier = (not torus) or w % 2 == 0
+    for i, op in enumerate(case["ops"]):
+        kind, x, y, ic, r, form = op
+        try:
+            if kind == "nbhd":
+                res = g.get_neighborhood((x, y), ic, r) if form == "get" else list(g.iter_neighborhood((x, y), ic, r))
+                cells = [tuple(int(v) for v in c) for c in res]
+                obs.append(_obs_cells(cells))
+                if in_quantifier:
+                    exp = _hex_expected(w, h, torus, (x, y), ic, r)
+                    if len(set(cells)) != len(cells) or set(cells) != exp:
+                        failures.append({"key": f"C09/{case['cls']}/neighborhood/wrong-cells", "op": i,
+                                         "what": f"hex get_neighborhood({(x, y)}, include_center={ic}, radius={r}) on {w}x{h} torus={torus}: got {sorted(cells)}, cells within {r} steps of touching hexagons are {sorted(exp)}"})
+            else:
+                res = g.get_neighbors((x, y), ic, r) if form == "get" else list(g.iter_neighbors((x, y), ic, r))
+                got = [a._verif_id for a in res]
+                obs.append(_obs_agents(got))
+                if in_quantifier:
+                    exp = _hex_expected(w, h, torus, (x, y), ic, r)
+                    expa = sorted(a for c in exp for a in where.get(c, []))
+                    if sorted(got) != expa:
+                        failures.append({"key": f"C09/{case['cls']}/neighbors/wrong-agents", "op": i,
+                                         "what": f"hex get_neighbors({(x, y)}, include_center={ic}, radius={r}) on {w}x{h} torus={torus}: got agents {sorted(got)}, agents in range are {expa}"})
+        except Exception as e:  # noqa: BLE001
+            obs.append([-1, 99])
+            failures.append({"key": f"C09/{case['cls']}/{kind}/unexpected-exception", "op": i, "what": f"{op} raised {type(e).__name__}: {e}"})
+    return {"obs": obs, "failures": failures}
+
+
+def _run_net(case):
+    import mesa
+    import networkx as nx
+    from mesa.space import NetworkGrid
+
+    model = mesa.Model(seed=1)
+    G = nx.Graph()
+    G.add_nodes_from(range(case["n"]))
+    G.add_edges_from([tuple(e) for e in case["edges"]])
+    g = NetworkGrid(G)
+    where = {}
+    for aid, node in case["agents"]:
+        a = mesa.Agent(model)
+        a._verif_id = aid
+        g.place_agent(a, node)
+        where.setdefault(node, []).append(aid)
+    adj = {i: set() for i in range(case["n"])}
+    for i, j in case["edges"]:
+        adj[i].add(j)
+        adj[j].add(i)
+
+    def expected(node, ic, r):
+        seen, frontier = set(), [node]
+        for _ in range(r):
+            nxt = []
+            for p in frontier:
+                for c in adj[p]:
+                    if c not in seen:
+                        seen.add(c)
+                        nxt.append(c)
+            frontier = nxt
+        seen.discard(node)
+        if ic:
+            seen.add(node)
+        return seen
+
+    obs, failures = [], []
+    for i, op in enumerate(case["ops"]):
+        kind, node, ic, r = op
+        try:
+            if kind == "nbhd":
+                res = [int(v) for v in g.get_neighborhood(node, ic, r)]
+                obs.append([1 if len(set(res)) != len(res) else 0] + sorted(res))
+                exp = expected(node, ic, r)
+                if len(set(res)) != len(res) or set(res) != exp:
+                    failures.append({"key": "C09/NetworkGrid/neighborhood/wrong-nodes", "op": i,
+                                     "what": f"NetworkGrid.get_neighborhood({node}, include_center={ic}, radius={r}) on edges {case['edges']}: got {sorted(res)}, nodes within {r} hops are {sorted(exp)}"})
+            else:
+                got = [a._verif_id for a in g.get_neighbors(node, ic, r)]
+                obs.append(_obs_agents(got))
+                expa = sorted(a for c in expected(node, ic, r) for a in where.get(c, []))
+                if sorted(got) != expa:
+                    failures.append({"key": "C09/NetworkGrid/neighbors/wrong-agents", "op": i,
+                                     "what": f"NetworkGrid.get_neighbors({node}, include_center={ic}, radius={r}): got {sorted(got)}, agents within range {expa}"})
+        except Exception as e:  # noqa: BLE001
+            obs.append([-1, 99])
+            failures.append({"key": f"C09/NetworkGrid/{kind}/unexpected-exception", "op": i, "what": f"{op} raised {type(e).__name__}: {e}"})
+    adjl = [[n, [int(v) for v in G.neighbors(n)]] for n in G.nodes]
+    return {"obs": obs, "failures": failures, "ops_for_model": [adjl] * len(case["ops"])}
+
+
 def run_impl(case):
+    if case.get("kind") == "hex":
+        return _run_hex(case)
+    if case.get("kind") == "net":
+        return _run_net(case)
     import mesa
     from mesa.space import MultiGrid, SingleGrid
 
@@ -232,7 +435,38 @@ def _q(x, y, moore, ic, r):
     return f"{{| q_pos := {L.zpair((x, y))}; q_moore := {L.b(moore)}; q_ic := {L.b(ic)}; q_r := {L.z(r)} |}}"
 
 
+def _contents(agents):
+    cells = {}
+    for aid, x, y in agents:
+        cells.setdefault((x, y), []).append(aid)
+    return L.lst([L.pair(L.zpair(c), L.zlist(v)) for c, v in cells.items()])
+
+
 def coq_case(case):
+    if case.get("kind") == "hex":
+        ops = [f"{'HNbhd' if op[0] == 'nbhd' else 'HNbrs'} {L.zpair((op[1], op[2]))} {L.b(op[3])} {L.z(op[4])}" for op in case["ops"]]
+        g = f"{{| g_w := {case['w']}; g_h := {case['h']}; g_torus := {L.b(case['torus'])} |}}"
+        return f"CHex {g} {_contents(case['agents'])} {L.lst(ops)}"
+    if case.get("kind") == "net":
+        if case.get("_ops_for_model"):
+            adjl = case["_ops_for_model"][0]
+        else:  # same construction order as the driver (networkx lists neighbours in edge-insertion order)
+            d = {i: [] for i in range(case["n"])}
+            for i, j in case["edges"]:
+                d[i].append(j)
+                d[j].append(i)
+            adjl = [[n, d[n]] for n in range(case["n"])]
+        G = L.lst([L.pair(L.z(n), L.zlist(l)) for n, l in adjl])
+        nodes = {}
+        for aid, node in case["agents"]:
+            nodes.setdefault(node, []).append(aid)
+        cs = L.lst([L.pair(L.z(n), L.zlist(v)) for n, v in nodes.items()])
+        ops = [f"{'NNbhd' if op[0] == 'nbhd' else 'NNbrs'} {L.z(op[1])} {L.b(op[2])} {L.z(op[3])}" for op in case["ops"]]
+        return f"CNet {G} {cs} {L.lst(ops)}"
+    return "COrth " + _coq_case_orth(case)
+
+
+def _coq_case_orth(case):
     cells = {}
     for aid, x, y in case["agents"]:
         cells.setdefault((x, y), []).append(aid)
@@ -246,25 +480,30 @@ def coq_case(case):
         else:
             ops.append(f"Contents {L.lst([L.zpair(c) for c in op[1]])}")
     g = f"{{| g_w := {case['w']}; g_h := {case['h']}; g_torus := {L.b(case['torus'])} |}}"
-    return f"{{| c_grid := {g}; c_contents := {cs}; c_ops := {L.lst(ops)} |}}"
+    return f"({{| c_grid := {g}; c_contents := {cs}; c_ops := {L.lst(ops)} |}})"
 
 
 def op_kinds(case):
-    return [f"{op[0]}" + ("/" + op[6] if len(op) > 6 else "") for op in case["ops"]]
+    k = case.get("kind", "orth")
+    return [f"{k}/{op[0]}" for op in case["ops"]]
 
 
 def nontrivial(case):
     obs = case.get("_obs", [])
     return len(case["ops"]) >= 2 and any(len(o) > 1 and o[0] != -1 for o in obs)
 
-LEVEL_TEXT = ("Machine-checked Coq theorems over a Gallina transcription of _Grid.get_neighborhood: for every width/height >= 1, "
-              "torus flag, position, radius, metric and include_center the result is exactly the metric ball (C09_cells_exact), "
-              "without duplicates, the interior fast path equals the border path, and - using the cache-key tuple re-extracted "
-              "from the source on every run - every query history gets the answers of a fresh grid (C09_cache_transparent). "
-              "The model is tied to the code by the regenerated table (T1) and by differential evaluation of model vs "
-              "implementation on exhaustive small grids and random histories (T2); an independent oracle states the property "
-              "on the implementation and supplies the failing input.")
-LEVEL_NOTE = ("Theorems are about the model; hex and network legacy grids are covered by the implementation-side oracle only. "
-              "Trusted: Coq kernel, translate.py, the driver/observer, CPython int/dict semantics as modelled. No axioms.")
-TECHNIQUE = "Coq proof (induction/arith lemmas, closed under global context) + source-regenerated tables + vm_compute correspondence"
+LEVEL_TEXT = ("Machine-checked Coq theorems over Gallina transcriptions of _Grid.get_neighborhood, _HexGrid.get_neighborhood and "
+              "NetworkGrid.get_neighborhood: for every width/height >= 1, torus flag, position, radius, metric and include_center the "
+              "orthogonal result is exactly the metric ball (C09_cells_exact), without duplicates, the interior fast path equals the "
+              "border path; the hex result is exactly the set of cells within r steps of touching hexagons (C09_hex_is_ball, with "
+              "C09_hex_touching proving that the adjacency tables re-extracted from the source are cube-distance 1); NetworkGrid "
+              "answers are the r-hop ball of any simple graph (C09_network_ball); and - using the cache-key tuples re-extracted from "
+              "the source on every run - every query history gets the answers of a fresh grid (C09_cache_transparent, "
+              "C09_hex_cache_transparent). The model is tied to the code by the regenerated tables (T1) and by differential evaluation "
+              "of model vs implementation on exhaustive small grids and random histories (T2); an independent oracle states the property "
+              "on the implementation (geometric distance / cube coordinates / own BFS) and supplies the failing input.")
+LEVEL_NOTE = ("Theorems are about the models; the tie is the regenerated tables plus differential testing, bounded by its generators. "
+              "Trusted: Coq kernel, translate.py + tables/legacy_hex.py, the driver/observer, CPython int/dict/set/deque semantics and "
+              "networkx neighbors/shortest-path as modelled. No axioms.")
+TECHNIQUE = "Coq proof (induction, invariants, lia; closed under global context) + source-regenerated tables + vm_compute correspondence"
 DESIGN_REF = "DESIGN.md section 4, C09"
